@@ -364,6 +364,53 @@ func TestVerifC06(t *testing.T) {
 			emit("responder-attack", coq, ok, sig, note)
 		}
 
+		// ---- live relay (splice): the honest requester A runs its handshake towards ANOTHER account (B2);
+		// an attacker in the middle, holding no account key at all, hands A's frames to the honest responder
+		// B, swallows B's accept frame and writes the (plaintext) acknowledge itself.  B must not report A:
+		// A's authenticate box is keyed for the account A asked for
+		for _, rsp := range []struct {
+			key p2pcrypto.PrivKey
+			id  uint64
+			who string
+		}{{B, 1002, "the responder B"}, {A, 1001, "the requester's own responder (reflection)"}} {
+			e1, e2 := c06pipe()
+			m1, m2 := c06pipe()
+			rc := c06startResponder(rsp.key, m2)
+			qc := c06startRequester(A, B2.GetPublic(), e1)
+			go func() { // requester -> responder, then the forged acknowledge
+				var h HelloPayload
+				if e2.r.ReadMsg(&h) != nil || m1.w.WriteMsg(&h) != nil {
+					return
+				}
+				var bx BoxEnvelope
+				if e2.r.ReadMsg(&bx) != nil || m1.w.WriteMsg(&bx) != nil {
+					return
+				}
+				_ = m1.w.WriteMsg(&RequesterAcknowledgePayload{Success: true})
+			}()
+			go func() { // responder -> requester: the hello is forwarded, the accept frame is swallowed
+				var h HelloPayload
+				if m1.r.ReadMsg(&h) != nil || e2.w.WriteMsg(&h) != nil {
+					return
+				}
+				var bx BoxEnvelope
+				_ = m1.r.ReadMsg(&bx)
+			}()
+			res := <-rc
+			e2.conn.Close()
+			m1.conn.Close()
+			<-qc
+			e1.conn.Close()
+			a, b := fresh(), fresh()
+			ok, sig, note := true, "", ""
+			if res.pk != nil {
+				ok, sig = false, "responder reports an account key whose owner did not take part in the session"
+				note = "live relay: " + rsp.who + " reports the key of a requester that was running its handshake towards another account (B2); the attacker in the middle holds no account key"
+			}
+			frame := fmt.Sprintf("(AuthF (dh %d (Pt %d)) (dh %d (Pt 1003)) 1 1001 Ed25519 1001 (dh %d (Pt %d)))", a, b, a, a, b)
+			emit("responder-attack", fmt.Sprintf("CResp %s %d %d (Pt %d) %s (Some true) %s", chk, rsp.id, b, a, frame, optN(res.pk, ids)), ok, sig, note)
+		}
+
 		// ---- attacks on the requester A (targets B) ----
 		type reqAttack struct {
 			name  string
